@@ -489,7 +489,11 @@ func runProperty(id, tier string, seed int, reg Registry, only string, workers i
 			}
 		}
 	}
-	writeEvidence(id, tier, seed, reports, inconclusive, violations, validated, time.Since(t0), loadDur)
+	evName := id
+	if only != "" {
+		evName = id + ".partial" // a single-harness debugging run must not replace the property's evidence
+	}
+	writeEvidence(evName, id, tier, seed, reports, inconclusive, violations, validated, time.Since(t0), loadDur)
 	for _, m := range inconclusive {
 		fmt.Printf("INCONCLUSIVE property=%s %s\n", id, m)
 	}
@@ -745,7 +749,7 @@ func doReplay(path string) int {
 
 // ---------------------------------------------------------------- evidence
 
-func writeEvidence(id, tier string, seed int, reports []*harnessReport, inconclusive []string, violations, validated int, wall, load time.Duration) {
+func writeEvidence(fileID, id, tier string, seed int, reports []*harnessReport, inconclusive []string, violations, validated int, wall, load time.Duration) {
 	states, transitions := 0, 0
 	var samples []interface{}
 	funcs := map[string]bool{}
@@ -838,7 +842,7 @@ func writeEvidence(id, tier string, seed int, reports []*harnessReport, inconclu
 	}
 	os.MkdirAll(filepath.Join(verifDir, "evidence"), 0o755)
 	b, _ := json.MarshalIndent(ev, "", " ")
-	os.WriteFile(filepath.Join(verifDir, "evidence", id+".json"), b, 0o644)
+	os.WriteFile(filepath.Join(verifDir, "evidence", fileID+".json"), b, 0o644)
 }
 
 func round3(f float64) float64 { return float64(int64(f*1000+0.5)) / 1000 }
